@@ -94,6 +94,12 @@ def _configs(tier, full, third=True):
                 for ce in (False, True):
                     for a in two:
                         yield dict(a, block=bk, region=rg, center=ce, drop=True, form="1d")
+        # integer-dtype coordinates whose block CENTRES are not integers (blocks of 3.6 on the 4x layout), with reductions that keep
+        # integers (round 8, seed C09-15: centres assigned into the reduced integer coordinate arrays)
+        for r in ("sum", "max", "min", "median", "mean"):
+            for fm in ("int", "int_e"):
+                for dr in (True, False):
+                    yield dict(red=r, ncomp=1, w=False, block="spacing_nd_r", region="given", center=True, drop=dr, form=fm)
 
 
 def cases(tier, seed):
@@ -103,6 +109,8 @@ def cases(tier, seed):
 
 
 def _cases(tier, seed):
+    for npts in (60000, 130001, 262145):
+        yield dict(manypoints=npts)
     yield from _square_cases(tier, seed)
     # non-square block layouts (more columns than rows, more rows than columns, a single row / column): one and two occupied sites and
     # full occupancy, two data paths, block spec x centre coordinates (seed C09-11: a row stride taken from the wrong axis)
@@ -175,6 +183,35 @@ def build(case):
 def run(case, rec):
     import verde as vd
 
+    if case.get("manypoints"):
+        # 60 000 ... 262 145 points on a 3 x 8 layout of unit blocks (round 8, seed C09-16: labels computed chunk by chunk): integer data, so
+        # block sums are exact; a vectorised dictionary-free oracle (floor of the coordinates; points within 1e-9 of an edge are left out
+        # of the input so that membership is unambiguous)
+        npts = case["manypoints"]
+        i = np.arange(npts, dtype=float)
+        east = 8.0 * np.modf(i * 0.6180339887498949)[0]
+        north = 3.0 * np.modf(i * 0.7548776662466927)[0]
+        keep = (np.abs(east - np.round(east)) > 1e-9) & (np.abs(north - np.round(north)) > 1e-9)
+        east, north = east[keep], north[keep]
+        data = np.round(1000.0 * np.sin(np.arange(east.size) * 0.37)) + 5.0
+        lab = (np.floor(north) * 8 + np.floor(east)).astype(int)
+        for red, name in ((np.sum, "sum"), (np.max, "max")):
+            got = call(rec, vd.BlockReduce(red, spacing=1.0, region=(0.0, 8.0, 0.0, 3.0)).filter, (east, north), data)
+            if raised(got):
+                return rec.check(False, "BlockReduce(%s).filter on %d points raised %r" % (name, east.size, got))
+            (ge, gn), gd = got
+            occ = np.unique(lab)
+            if name == "sum":
+                want = np.bincount(lab, weights=data, minlength=24)[occ]
+                wce = np.bincount(lab, weights=east, minlength=24)[occ]
+            else:
+                want = np.array([data[lab == b].max() for b in occ])
+                wce = np.array([east[lab == b].max() for b in occ])
+            ok = np.asarray(gd).shape == want.shape and bool(np.all(np.asarray(gd) == want))
+            rec.check(ok, "BlockReduce(%s) on %d points: block values %s differ from the exact ones %s" % (name, east.size, np.asarray(gd).ravel()[:6].tolist(), want[:6].tolist()))
+            rec.check(np.asarray(ge).shape == wce.shape and bool(np.all(np.abs(np.asarray(ge) - wce) <= 1e-6 * np.abs(wce).max())), "BlockReduce(%s) on %d points: reduced eastings differ" % (name, east.size))
+        rec.cls("many-points")
+        return
     nbx, nby = case["layout"]
     e, n, labels = build(case)
     npts = e.size
